@@ -114,11 +114,12 @@ Definition ratio_spec (n d : Z) : option (Z * Z) :=
   if (d =? 0) || negb (abs_representable n) || negb (abs_representable d) then None
   else Some (lowest_terms n d).
 (* [ratio.arithmetic]: the result in lowest terms; "If it is not possible to represent U or V
-   with intmax_t, the program is ill-formed." *)
+   with intmax_t, the program is ill-formed."  The alias denotes ratio<U, V>, which [ratio.ratio]
+   makes ill-formed as well when |U| is not representable (U = INTMAX_MIN). *)
 Definition ratio_result (n d : Z) : option (Z * Z) :=
   if d =? 0 then None
   else let '(u, v) := lowest_terms n d in
-       if representable u && representable v then Some (u, v) else None.
+       if abs_representable u && abs_representable v then Some (u, v) else None.
 Definition ratio_add_spec (n1 d1 n2 d2 : Z) := ratio_result (n1 * d2 + n2 * d1) (d1 * d2).
 Definition ratio_subtract_spec (n1 d1 n2 d2 : Z) := ratio_result (n1 * d2 - n2 * d1) (d1 * d2).
 Definition ratio_multiply_spec (n1 d1 n2 d2 : Z) := ratio_result (n1 * n2) (d1 * d2).
